@@ -259,6 +259,7 @@ type stats struct {
 	triggerSync, walWrites                        int
 	nearQuorum                                    int // actions taken with exactly quorum power (edge hit)
 	belowQuorumIdle                               int
+	deepHits                                      int
 }
 
 func newSim(r *lib.Run, idx int, c *config, rng *rand.Rand) *sim {
